@@ -53,7 +53,7 @@ static CO_TMR_MEM TMem[4];
 static uint32_t   ID[4];                 /* identity object 1018h:1..4 of this configuration (constant) */
 static uint8_t   *Snap;                  /* buffer for the side probe */
 static struct WObs ObsKeep;
-static int        o_liveness, o_reactivate, o_drvbaud;
+static int        o_liveness, o_reactivate, o_drvbaud, o_nopoll;
 
 enum { N_PREOP, N_OP, N_STOP, N_ANY };
 
@@ -104,6 +104,7 @@ static void build_alphabet(void)
     add(K_ACT, 0, 0); add(K_ACT, 2, 0);
     if (conf) { add(K_STORE, 0, 0); add(K_STORE, 1, 0); }         /* a: the application's store callback fails */
     for (int k = 0; k < 5; k++) add(K_INQ, 90 + k, 0);
+    if (mc_opt("nopoll", 0)) add(K_INQ, 94, 1);
     add(K_NONCFG, 0, 0);
     add(K_UNKNOWN, 5, 0);                                         /* command specifier 05h: reserved in CiA 305 */
     add(K_SHORT, 0, 0);                                           /* inquire node id with DLC 1 */
@@ -129,7 +130,7 @@ static const char *ev_name(int e)
     case K_BIT:     snprintf(b, sizeof b, "configure-bit-timing(table=%d,index=%d)", v->a, v->b); break;
     case K_ACT:     snprintf(b, sizeof b, "activate-bit-timing(delay=%d)", v->a); break;
     case K_STORE:   snprintf(b, sizeof b, "store-configuration(callback %s)", v->a ? "fails" : "ok"); break;
-    case K_INQ:     snprintf(b, sizeof b, "inquire(cs %d)", v->a); break;
+    case K_INQ:     snprintf(b, sizeof b, "inquire(cs %d)%s", v->a, v->b ? ", the CAN driver refuses the answer" : ""); break;
     case K_NONCFG:  snprintf(b, sizeof b, "identify-non-configured [cs 76]"); break;
     case K_UNKNOWN: snprintf(b, sizeof b, "unknown-cs(%d)", v->a); break;
     case K_SHORT:   snprintf(b, sizeof b, "inquire-node-id-DLC1"); break;
@@ -167,7 +168,7 @@ static int build(int cfg)
     W_REG(Node); W_REG(OD); W_REG(ErrReg); W_REG(SdoBuf); W_REG(TMem); W_REG(M);
     for (int i = 0; i < CO_SSDO_N; i++) w_nohash_range(&Node.Sdo[i].Frm, sizeof Node.Sdo[i].Frm);
     Snap = realloc(Snap, w_snap_size());
-    o_liveness = mc_opt("liveness", 0); o_reactivate = mc_opt("reactivate", 0); o_drvbaud = mc_opt("drvbaud", 0);
+    o_liveness = mc_opt("liveness", 0); o_reactivate = mc_opt("reactivate", 0); o_drvbaud = mc_opt("drvbaud", 0); o_nopoll = mc_opt("nopoll", 0);
     build_alphabet();
     return NEV;
 }
@@ -290,7 +291,8 @@ static int step(int e)
 {
     const Ev *v = &EV[e];
     int is_frame = (v->kind != K_TICK);
-    if (is_frame && !DRV.can_active) return MC_SKIP;              /* a closed controller receives nothing */
+    if (is_frame && !DRV.can_active && !(o_reactivate && v->kind == K_ACT)) return MC_SKIP;      /* a closed controller receives nothing - except, with reactivate=1, a repeated activation request
+                                                                                                     * (a driver whose Close is a no-op keeps hearing the bus) */
 
     switch (v->kind) {
     case K_SG:
@@ -412,7 +414,10 @@ static int step(int e)
 
     case K_INQ: {
         const WFrame *f;
+        if (v->b) DRV.send_fail = 1;                               /* nopoll=1: the answer is refused by the driver, which registers a node error nobody reads */
         lss_send8((uint8_t)v->a, 0, 0, 0, 0, 0, 0);
+        DRV.send_fail = 0;
+        if (v->b) { expect_none("the CAN driver refused the transmission"); break; }
         if (M.mode == 0) { expect_none("the inquiry arrived in waiting state"); break; }
         f = expect_one((uint8_t)v->a, "the inquiry arrived in configuration state");
         if (!f) break;
@@ -503,7 +508,8 @@ static int step(int e)
         }
         break; }
     }
-    (void)CONodeGetErr(&Node);                                     /* the application reads (and clears) the node error */
+    if (!o_nopoll) (void)CONodeGetErr(&Node);                      /* the application reads (and clears) the node error - with nopoll=1 it never does: the error register of the node is sticky,
+                                                                    * and nothing the LSS slave does may depend on an old, unrelated error */
     return MC_OK;
 }
 
